@@ -64,6 +64,19 @@ def main():
             print("no units", file=sys.stderr)
             return 3
         results = common.run_units(units)
+        # second chance for units the SOLVER BUDGET left undecided (a timeout under a fully loaded machine, never a wrong answer):
+        # re-run those units alone, two at a time, with a tripled solver / wall-clock budget; their new results replace the old ones
+        retry = [u for u in units if u.engine != "rtc" and (results.get(u.name, {}).get("kind") == "timeout" or any(
+            o.get("status") == "unknown" and ("cancel" in str(o.get("reason")) or "timeout" in str(o.get("reason"))) for o in results.get(u.name, {}).get("obligations", [])))]
+        if retry and len(retry) <= 8:
+            os.environ["VERIF_TIMEOUT_SCALE"] = "3"
+            for u in retry:
+                u.timeout_s = int(u.timeout_s * 2)
+            again = common.run_units(retry, jobs=2)
+            os.environ.pop("VERIF_TIMEOUT_SCALE", None)
+            for u in retry:
+                if again.get(u.name, {}).get("kind") == "ok" or results.get(u.name, {}).get("kind") != "ok":
+                    results[u.name] = again[u.name]
         verdict = common.decide(a.pid, a.tier, results, units)
         meta = {"trusted_base": [], "assumptions": [], "functions_under_contract": [], "explanation": ""}
         for kind, attr in (("shadow", "SH_META"), ("main", "META"), ("rtc", "RTC_META")):
